@@ -465,6 +465,8 @@ def attempt(fn):
 
 
 def signature(e):
+    if isinstance(e, RecursionError):
+        return 'RecursionError', '(deep)', None      # walking a 1000-frame traceback is slow and tells nothing
     try:
         tb = traceback.extract_tb(e.__traceback__, limit=-60)
     except Exception:  # noqa
@@ -1269,7 +1271,9 @@ DEP_CASES = [
 
 def f_dependencies():
     for kindname in ('mof', 'script'):
-        for name, sfiles, text, exp, hints, classes in DEP_CASES:
+        for di, (name, sfiles, text, exp, hints, classes) in enumerate(DEP_CASES):
+            if QUICK and kindname == 'script' and di % 2:
+                continue
             base, fmap = mkfiles(sfiles)
             env = Env(kindname, search_paths=[base])
 
@@ -1455,14 +1459,14 @@ def f_mutations(env):
                 muts.append((('swap', i), text[:s] + text[s2:e2] + text[e:s2] + text[s:e] + text[e2:]))
             subs = SUBS
             if QUICK:
-                subs = [SUBS[(i * 7 + j * 11 + len(name)) % len(SUBS)] for j in range(4)]
+                subs = [SUBS[(i * 7 + j * 11 + len(name)) % len(SUBS)] for j in range(3)]
             for sub in subs:
                 if sub != text[s:e]:
                     muts.append((('sub', i, sub), text[:s] + sub + text[e:]))
         for key, m in muts:
             case(env, 'mutation', (name,) + key, m, hints={'embedded'})
         # every prefix truncation (unterminated everything)
-        step = 1
+        step = 2 if QUICK else 1
         for cut in range(off, len(text), step):
             case(env, 'truncation', (name, cut), text[:cut], hints={'embedded'})
         if not QUICK:
@@ -1482,7 +1486,7 @@ SOUP = ['class', 'instance', 'of', 'as', 'qualifier', 'scope', 'flavor', 'ref', 
 
 
 def f_random(env):
-    n = 1500 if QUICK else 30000
+    n = 1500 if QUICK else 120000
     for i in range(n):
         mode = i % 4
         if mode == 0:      # token soup
@@ -1694,7 +1698,7 @@ def f_sequences():
         good = os.path.join(base, 'good.mof')
         for i, (n1, t1, f1) in enumerate(steps):
             for j, (n2, t2, f2) in enumerate(steps):
-                if QUICK and kindname == 'script' and (i + j) % 3:
+                if QUICK and (i + j) % (2 if kindname == 'mof' else 5):
                     continue
                 for n, t, f in ((n1, t1, f1), (n2, t2, f2)):
                     hints = {'embedded', 'file', 'cyclic'} if f == 'cyc.mof' else {'embedded', 'file'}
